@@ -118,7 +118,7 @@ fn conformant(ctx: &Ctx, case: &Case, fmt: Fmt, size: EncSize, input: &[u8], com
 /// algorithm) for inputs on which a carry is propagated through a run of >= 2, 3, 4, ... pending 0xFF bytes -
 /// the case the statement names and that neither short strings nor random inputs reach.
 /// Deterministic; returns (witness input, run length).
-pub fn carry_witnesses(depth: usize, beam: usize) -> Vec<(Vec<u8>, u64)> {
+pub fn carry_witnesses(prefix: &[u8], depth: usize, beam: usize) -> Vec<(Vec<u8>, u64)> {
     use rayon::prelude::*;
     #[derive(Clone)]
     struct St {
@@ -127,7 +127,13 @@ pub fn carry_witnesses(depth: usize, beam: usize) -> Vec<(Vec<u8>, u64)> {
         bytes: Vec<u8>,
     }
     let mut best: std::collections::BTreeMap<u64, Vec<u8>> = std::collections::BTreeMap::new();
-    let mut frontier = vec![St { m: enc::Model::new(3, 0, 2), rc: enc::RcEnc::new(), bytes: vec![] }];
+    let mut first = St { m: enc::Model::new(3, 0, 2), rc: enc::RcEnc::new(), bytes: vec![] };
+    for b in prefix {
+        first.m.enc(&mut first.rc, Sym::L(*b));
+        first.bytes.push(*b);
+    }
+    first.rc.max_ff_run_at_carry = 0;
+    let mut frontier = vec![first];
     for _ in 0..depth {
         let mut next: Vec<(u128, St)> = frontier
             .par_iter()
@@ -141,7 +147,7 @@ pub fn carry_witnesses(depth: usize, beam: usize) -> Vec<(Vec<u8>, u64)> {
                     // growing and a carry is still possible
                     let lo32 = n.rc.low & 0xFFFF_FFFF;
                     let straddles = (lo32 + n.rc.range as u64 > 0x1_0000_0000) as u128;
-                    let score = ((n.rc.cache_size as u128) << 41) | (straddles << 40) | lo32 as u128;
+                    let score = (straddles << 100) | ((n.rc.cache_size as u128) << 41) | lo32 as u128;
                     (score, n)
                 })
             })
@@ -159,6 +165,9 @@ pub fn carry_witnesses(depth: usize, beam: usize) -> Vec<(Vec<u8>, u64)> {
         next.truncate(beam);
         // a state that already carried keeps its record but is no longer interesting to extend preferentially:
         frontier = next.into_iter().map(|(_, s)| s).collect();
+        if std::env::var("VERIF_DEBUG").is_ok() {
+            eprintln!("depth {}: best pending {} straddle {} carried-max {}", frontier[0].bytes.len(), frontier[0].rc.cache_size, (frontier[0].rc.low & 0xFFFF_FFFF) + frontier[0].rc.range as u64 > 0x1_0000_0000, best.keys().max().copied().unwrap_or(0));
+        }
     }
     best.into_iter().map(|(r, b)| (b, r)).collect()
 }
@@ -286,7 +295,18 @@ pub fn run(tier: Tier) -> i32 {
         let name = "carry-through-0xFF-run-witnesses";
         if ctx.may_start(name) {
             let t0 = Instant::now();
-            let w = carry_witnesses(tier.pick(36, 64), tier.pick(40, 128));
+            // from several trained starting states (a long run of equal bytes drives is_match and the literal
+            // probabilities to the rails, which makes the straddling lineage live longer)
+            let prefixes: Vec<Vec<u8>> = vec![vec![], vec![0u8; 300], vec![0u8; 700], vec![0xFF; 700], (0..200u32).map(|i| (i * 7) as u8).collect()];
+            let mut w: Vec<(Vec<u8>, u64)> = Vec::new();
+            for p in &prefixes {
+                let mut found = carry_witnesses(p, tier.pick(96, 240), tier.pick(10, 24));
+                // keep the three longest runs per starting state
+                found.sort_by(|a, b| b.1.cmp(&a.1));
+                found.truncate(3);
+                w.extend(found);
+            }
+            w.sort_by(|a, b| a.1.cmp(&b.1));
             let longest = w.iter().map(|x| x.1).max().unwrap_or(0);
             let mut items: Vec<Vec<u8>> = Vec::new();
             for (b, _) in &w {
